@@ -106,8 +106,14 @@ func (g *gen) genS2H() *Case {
 		c.Form = "cond"
 	}
 	if c.Form == "assign" {
-		c.Assign = pick(g, []string{"define", "local", "global"}, "assignkind")
-		if nout > 0 && g.coin(25, "blank") {
+		kinds := []string{"define", "local", "global"}
+		if nout >= 2 {
+			kinds = append(kinds, "redeclare", "redeclare")
+		}
+		c.Assign = pick(g, kinds, "assignkind")
+		if c.Assign == "redeclare" {
+			c.Redecl = g.intn(0, nout-1, "redeclpos")
+		} else if nout > 0 && g.coin(25, "blank") {
 			c.Blank = make([]bool, nout)
 			c.Blank[g.intn(0, nout-1, "blankpos")] = true
 		}
@@ -275,6 +281,9 @@ func (c *Case) labels() ([]string, bool) {
 		}
 		if c.Dir == "s2h" {
 			ls = append(ls, "form:"+c.Form, "args:"+c.argMode())
+			if c.Form == "assign" {
+				ls = append(ls, "assign:"+c.Assign)
+			}
 			if c.HostVia != "" {
 				ls = append(ls, "host-func-via-var")
 			}
